@@ -29,6 +29,9 @@ func (f SolarChargerBatteryVoltageFactoryType) New(v uint8) (SolarChargerBattery
 }
 
 func (f SolarChargerBatteryVoltageFactoryType) NewEnum(v int) (Enum, error) {
+	if v < 0 || v > 255 {
+		return nil, ErrInvalidEnumIdx
+	}
 	return f.New(uint8(v))
 }
 
